@@ -276,6 +276,14 @@ pub fn case(t: &mut Tape, ctx: &CaseCtx) -> CaseResult {
 
 pub fn run(mut run: Run) -> i32 {
     run.replay_committed(&case);
+    // boundary inputs incl. the seeded C20 overflow window (u32::MAX+1..+4) with leading zeros and in every position
+    let mut fixed: Vec<(String, Box<dyn Fn() -> CaseResult>)> = vec![];
+    for n in [4294967295u64, 4294967296, 4294967297, 4294967298, 4294967299, 4294967300, 42949672950, 9999999999] {
+        for s in [format!("{n}"), format!("1.{n}"), format!("1.2.{n}"), format!("1.2.3.{n}"), format!("00{n}.0"), format!("{n}.{n}.{n}.{n}")] {
+            fixed.push((s.clone(), Box::new(move || check_string(&s, false))));
+        }
+    }
+    run.fixed("regression inputs (overflow window)", fixed);
     // exhaustive grid: quick uses the first 7 grid values for 6 slots, thorough all 13 for up to 5 slots + full
     let k = run.n(7, GRID.len());
     // restrict the grid alphabet by enumerating only indices < k: dims use GRID.len() encoding, so enumerate
